@@ -84,6 +84,25 @@ CHECKS = {
                     "connections or a dead session being serviced in a busy loop."),
         level_note="Quiescence is observed with bounded waits (<=10 s); counts are process-wide.",
     ),
+    "C17": dict(
+        pkg="c17",
+        level="exploration",
+        technique="property-based testing (rapid) of write-then-close histories through real client/server pairs; oracle: accepted bytes then end-of-stream at the other end within a bound",
+        rule=("case = (carrier x security configuration, closer app/target, payload length 0..several MiB biased to "
+              "0/1/2/4095..4097/32639..32641/32767..32769/65535..65537, partition into writes, close issued after the last "
+              "write returned or racing with it (0-400 us after starting it), 0-2 other logical connections open and idle or "
+              "actively echoing). Oracle: the non-closing end reads exactly the bytes the closer's writes accepted, then "
+              "end-of-stream, within 30 s (120 s DNS); the other logical connections still echo afterwards. non-trivial = "
+              "payload length >= 1; distinct = distinct case tuple"),
+        assumptions=["only full close is exercised (the property does not promise half-close semantics)",
+                     "the non-closing end writes nothing on the closing connection, so no unread data can turn the close into a reset"],
+        quick=dict(run=".", checks=150, timeout=900),
+        thorough=dict(run=".", checks=500, timeout=3000, shards=8),
+        design_ref="DESIGN.md 2/C17",
+        level_text=("Generated write-then-close cases on freshly started real pairs for every carrier kind. A green run means no "
+                    "generated case lost data in flight at close time, withheld the end-of-stream, or broke other logical connections."),
+        level_note="Bounded-time observation (30 s / 120 s); sampling only.",
+    ),
     "C19": dict(
         pkg="c19",
         level="exploration",
